@@ -75,6 +75,8 @@ pub trait Hook: Sync + Send {
   fn after(&self, access: &Access, outcome: &Outcome);
   /// called when the backing memory is really being released (start of `Memory::unmount`)
   fn unmount(&self, _base: usize, _cap: usize) {}
+  /// called before the arena zero-fills `len` bytes at `addr` (non-atomic write of `Meta::clear`); may block
+  fn zero(&self, _addr: usize, _len: usize) {}
 }
 
 static HOOK: OnceLock<&'static dyn Hook> = OnceLock::new();
@@ -87,6 +89,14 @@ pub fn set_hook(hook: &'static dyn Hook) -> bool {
 #[inline]
 fn hook() -> Option<&'static dyn Hook> {
   HOOK.get().copied()
+}
+
+/// Reports a zero-fill about to be performed to the hook.
+#[inline]
+pub(crate) fn on_zero(addr: usize, len: usize) {
+  if let Some(h) = hook() {
+    h.zero(addr, len);
+  }
 }
 
 /// Reports the release of the backing memory to the hook.
